@@ -59,6 +59,11 @@ def evict_families(backend):
                  InitLimit=4, Limits={4, 6}, MaxObj=8, **common))
     f.append(fam("c13_%s_4keys" % backend, "NF_evict", 34, chunk=1 << 20, lru=True, NKeys=4, ShardOf="<- Shard1123",
                  InitLimit=6, Limits={4, 6}, MaxObj=10, **common))
+    if backend == "memory":
+        # the memory budget, not max_cache_size, is the limit in force (max_cache_size is set far above it): stores at the
+        # limit must evict down to 80% of the limit in force all the same (no cleanup cycles: they look at max_cache_size only)
+        f.append(fam("c13_memory_budget_bound", "NF_evict", 28, chunk=1 << 20, lru=True, NKeys=3, ShardOf="<- Shard123",
+                     InitLimit=3, Limits={3}, MaxObj=8, capBound=True, **dict(common, Janitor=False)))
     return f
 
 
@@ -135,6 +140,7 @@ def run_traps(f, cap, seed, timeout=60, workers=8):
 def consts_of(f):
     c = dict(f["consts"])
     c.pop("memPct", None)
+    c.pop("capBound", None)
     return c
 
 
@@ -153,7 +159,7 @@ def driver_config(f):
     return {"backend": consts["Backend"], "shardOf": sm, "shards": f.get("shards") or max(sm),
             "clients": consts["NClients"], "chunk": f["chunk"], "limit": consts["InitLimit"],
             "memPct": consts.get("memPct", 75), "lru": f["lru"], "tickMs": consts["TickMs"],
-            "handles": consts["MaxHandles"], "watchdogMs": 4000}
+            "handles": consts["MaxHandles"], "watchdogMs": 4000, "capBound": bool(consts.get("capBound", False))}
 
 
 def replay_and_validate(f, hists, keep_dir=None, inp=None):
